@@ -109,3 +109,34 @@ func VH_C19_cycle() {
 	_, has := r.FS.Files[lockfile]
 	rt.Assert(has, "new-holder-holds-the-lock")
 }
+
+// VH_C19_crash: the holder is killed at an arbitrary storage step while it takes the
+// lock (or right after); whatever it leaves behind, the next open succeeds once it is dead
+// and the new holder's lock names the new holder.
+func VH_C19_crash() {
+	r := vrepo.New()
+	if rt.Choose(2) == 1 {
+		r.FS.Files[lockfile] = []byte("77") // a stale lock of an earlier dead process
+		rt.Cover("stale-lock-before")
+	}
+	process.VHIsRunning = func(pid int) bool { return false } // every earlier holder is dead
+	defer func() { process.VHIsRunning = nil }()
+	events := make(chan BuildEvent, 8)
+	c := &RepoCache{repo: r, name: "default"}
+	k := rt.Choose(rt.Param("K", 6))
+	r.FS.CrashAfter = r.FS.Mutations + k
+	crashed, _ := rt.Try(func() { _ = c.lock(events) })
+	r.FS.CrashAfter = -1
+	if crashed {
+		rt.Cover("killed-while-locking")
+	} else {
+		rt.Cover("killed-after-locking")
+	}
+	// the process is gone; somebody else opens the repository
+	c2 := &RepoCache{repo: r, name: "default"}
+	err := c2.lock(events)
+	rt.Assert(err == nil, "next-open-succeeds-after-the-holder-died")
+	buf, ok := r.FS.Files[lockfile]
+	rt.Assert(ok && string(buf) == fmt.Sprintf("%d", os.Getpid()), "new-lock-names-the-new-holder")
+	rt.Observe("k", k)
+}
